@@ -361,3 +361,33 @@ Theorem modpow_disabled_differs P :
   run_chia P 100 BIT_DISABLE_OP modpow_2_77 (Atom []) 0 = Err Unimplemented /\
   run_chia P 100 0 modpow_2_77 (Atom []) 0 = Ok (17321, Atom [12; 128; 88]).
 Proof. vm_compute. repeat split. Qed.
+
+(* non-vacuity witnesses of Props/C30.v (computed here so that re-checking Props stays cheap) *)
+Lemma witness_limits : forall P,
+  let w := N.lor BIT_NEW_COST_MODEL (N.lor BIT_LIMITS (N.lor BIT_DISABLE_OP BIT_ENABLE_GC)) in
+  let q x := Cons (Atom [1]) x in
+  let prog := Cons (Atom [18]) (Cons (q (Atom (repeat 1 300))) (Cons (q (Atom [3])) (Atom []))) in
+  (has w BIT_DISABLE_OP = false \/ has w BIT_NEW_COST_MODEL = true) /\
+  has w BIT_LIMITS = true /\ dialect_flags (flags_of_N w) <> flags_of_N w /\
+  exists v,
+  run_program (common_dialect P (flags_of_N w)) 100 prog (Atom []) 0 = Ok (9550, v) /\
+  run_runtime P 100 w prog (Atom []) 0 = Ok (9550, v) /\
+  run_chia P 100 (N.ldiff w GC_DISABLE_OP_BITS) prog (Atom []) 0 = Ok (9550, v) /\
+  run_runtime P 100 BIT_LIMITS prog (Atom []) 0 = Err (InvalidOpArg 0) /\
+  run_chia P 100 BIT_LIMITS prog (Atom []) 0 = Err (InvalidOpArg 0).
+Proof.
+  intros P w q prog. split; [right; reflexivity|]. split; [reflexivity|]. split; [vm_compute; discriminate|].
+  eexists. split; [vm_compute; reflexivity|]. split; [vm_compute; reflexivity|].
+  split; [vm_compute; reflexivity|]. split; vm_compute; reflexivity.
+Qed.
+
+Lemma witness_disable_op : forall P,
+  let F := flags_of_N (N.lor BIT_DISABLE_OP BIT_ENABLE_GC) in
+  run_program (common_gc_dialect P F) 100 div_2049 (Atom []) 0 = Err (InvalidOpArg 0) /\
+  run_program (runtime_dialect P F) 100 div_2049 (Atom []) 0 = Err (InvalidOpArg 0) /\
+  run_program (chia_dialect P (minus_gc F)) 100 div_2049 (Atom []) 0 = Err (InvalidOpArg 0) /\
+  run_program (common_gc_dialect P F) 100 modpow_2_77 (Atom []) 0 = Err Unsupported.
+Proof.
+  intros P F. split; [vm_compute; reflexivity|]. split; [vm_compute; reflexivity|].
+  split; vm_compute; reflexivity.
+Qed.
